@@ -183,6 +183,103 @@ def alpha(f: Func, slots: Dict[str, str]) -> str:
     return ast.dump(ast.Module(body=node.body, type_ignores=[]))
 
 
+def _str_eval(e: ast.AST, env: Dict[str, str], mod) -> str:
+    """value of a string expression over known names (constants of the module, loop
+    variables): literals, names, f-strings without format specs, +, TABLE[key]"""
+    if isinstance(e, ast.Constant) and isinstance(e.value, str):
+        return e.value
+    if isinstance(e, ast.Name):
+        if e.id in env:
+            return env[e.id]
+        vals = mod.assigns.get(e.id)
+        if vals and len(vals) == 1:
+            return _str_eval(vals[0], env, mod)
+    if isinstance(e, ast.JoinedStr):
+        out = ''
+        for v in e.values:
+            if isinstance(v, ast.FormattedValue):
+                if v.format_spec is not None or v.conversion not in (-1, 115):
+                    raise AnalysisError(f'string outside the grammar: `{src(e)}`')
+                out += _str_eval(v.value, env, mod)
+            else:
+                out += _str_eval(v, env, mod)
+        return out
+    if isinstance(e, ast.BinOp) and isinstance(e.op, ast.Add):
+        return _str_eval(e.left, env, mod) + _str_eval(e.right, env, mod)
+    if isinstance(e, ast.Subscript) and src(e.value) == 'STRING_TO_YAML_FILE':
+        k = _str_eval(e.slice, env, mod)
+        if ('table', k) in env:
+            return env[('table', k)]
+    if isinstance(e, ast.Call) and src(e.func) in ('os.path.join', 'posixpath.join'):
+        return '/'.join(_str_eval(a, env, mod) for a in e.args)
+    raise AnalysisError(f'string outside the grammar: `{src(e)[:60]}`')
+
+
+def registration_loop(gm, ids: Dict[str, str]):
+    """denotation of the module-level registration: for every (id, file) of the table the
+    loop registers `id` with a factory bound to the packaged resource registered_envs/file"""
+    from ..guards import walk_function
+    body = [st for st in gm.tree.body
+            if not isinstance(st, (ast.FunctionDef, ast.ClassDef, ast.Import, ast.ImportFrom))]
+    fn = ast.FunctionDef('__module__', ast.arguments([], [], None, [], [], None, []), body, [],
+                         None, lineno=1, col_offset=0)
+    w = walk_function(fn)
+    regs = [e for e in w.events if e.kind == 'call' and src(e.node.func) in ('gym.register',
+                                                                             'register')]
+    if len(regs) != 1 or not regs[0].loops:
+        return False, f'{len(regs)} gym.register call(s) in a loop'
+    e = regs[0]
+    tgt, it = e.loops[-1]
+    T = 'STRING_TO_YAML_FILE'
+    its = src(w.expand(it, stop=[T]))
+    kw = {k.arg: k.value for k in e.node.keywords}
+    id_e = e.node.args[0] if e.node.args else kw.get('id')
+    fac = kw.get('kwargs')
+    if id_e is None or fac is None:
+        return False, 'register(id, kwargs=...) not found'
+    ep = e.node.args[1] if len(e.node.args) > 1 else kw.get('entry_point')
+    try:
+        eps = _str_eval(w.expand(ep), {}, gm) if ep is not None else None
+    except AnalysisError:
+        eps = None
+    if eps != 'gym_gridverse.gym:from_factory':
+        return False, f'entry point is `{eps}`'
+    pair = isinstance(tgt, ast.Tuple) and len(tgt.elts) == 2 and \
+        its in (f'{T}.items()', f'list({T}.items())', f'sorted({T}.items())')
+    single = isinstance(tgt, ast.Name) and its in (
+        T, f'{T}.keys()', f'list({T})', f'list({T}.keys())', f'sorted({T})', f'tuple({T})')
+    if not (pair or single):
+        return False, f'the loop iterates over `{its}`, not over the table'
+    loopvars = [x.id for x in (tgt.elts if pair else [tgt]) if isinstance(x, ast.Name)]
+    loopvars_stop = loopvars + [T]
+    fac_e = w.expand(fac, stop=loopvars_stop)
+    res = [n for n in ast.walk(fac_e) if isinstance(n, ast.Call)
+           and src(n.func).endswith('resource_filename')]
+    if len(res) != 1 or len(res[0].args) != 2:
+        return False, 'the factory is not bound to one packaged resource file'
+    if not (isinstance(fac_e, ast.Dict) and [src(k) for k in fac_e.keys] == ["'factory'"] and
+            isinstance(fac_e.values[0], ast.Call) and
+            src(fac_e.values[0].func) in ('partial', 'functools.partial') and
+            len(fac_e.values[0].args) == 2 and
+            src(fac_e.values[0].args[0]) == 'outer_env_factory' and
+            fac_e.values[0].args[1] is res[0]):
+        return False, f'kwargs is `{src(fac_e)[:100]}`, not {{factory: partial(outer_env_factory, <resource>)}}'
+    for gid, fname in sorted(ids.items()):
+        env: Dict = {('table', k): v for k, v in ids.items()}
+        env[loopvars[0]] = gid
+        if pair:
+            env[loopvars[1]] = fname
+        try:
+            pkg = _str_eval(res[0].args[0], env, gm)
+            path = _str_eval(w.expand(res[0].args[1], stop=loopvars_stop), env, gm)
+            rid = _str_eval(w.expand(id_e, stop=loopvars_stop), env, gm)
+        except AnalysisError as ex:
+            return False, str(ex)
+        if pkg != 'gym_gridverse' or path != f'registered_envs/{fname}' or rid != gid:
+            return False, f'id {gid} registers `{rid}` with resource {pkg}:{path}'
+    return True, ''
+
+
 def run(index: RepoIndex, rep) -> None:
     rep.rule('C17.R1', 'gym ids point to packaged files identical to their yaml/ twins', floor=44)
     rep.rule('C17.R2', 'each shipped file has the top-level keys of the env schema, non-empty '
@@ -227,16 +324,13 @@ def run(index: RepoIndex, rep) -> None:
             rep.check(twin in cfg.texts and rel[5:] in ids.values(), 'C17.R1', rel, '<config>',
                       1, rel, f'{rel} has no packaged copy / no gym id', f'{rel}: registered')
     gm = index.module(GYM)
-    loop_ok = "pkg_resources.resource_filename('gym_gridverse', f'registered_envs/{yaml_filename}')" \
-        in src(gm.tree) and 'for key, yaml_filename in STRING_TO_YAML_FILE.items()' in src(gm.tree)
+    loop_ok, why = registration_loop(gm, ids)
     rep.check(loop_ok, 'C17.R1', GYM, '<module>', tab.lineno, 'registration loop',
               'the registration loop does not build registered_envs/<file> for every table '
-              'entry', 'registration loop')
-    reg_ok = "gym.register(key, entry_point='gym_gridverse.gym:from_factory', " \
-             "kwargs={'factory': factory})" in src(gm.tree) and \
-             'factory = partial(outer_env_factory, yaml_filepath)' in src(gm.tree)
-    rep.check(reg_ok, 'C17.R1', GYM, '<module>', tab.lineno, 'gym.register(...)',
-              'ids are not registered with a factory bound to their own file', 'gym.register')
+              f'entry: {why}', 'registration loop')
+    rep.check(loop_ok or 'entry point' not in why, 'C17.R1', GYM, '<module>', tab.lineno,
+              'gym.register(...)', 'ids are not registered with the from_factory entry point '
+              f'and a factory bound to their own file: {why}', 'gym.register')
     st = index.module('setup.py')
     rep.check("'registered_envs/*.yaml'" in src(st.tree), 'C17.R1', 'setup.py', '<module>', 1,
               'package_data', 'setup.py does not package registered_envs/*.yaml',
